@@ -22,7 +22,7 @@ def worker(k):
     fw, rp = "/tmp/vb/hr%d" % k, "/tmp/vb/hr%d-repo" % k
     sh("rm -rf %s %s; git -C /repo worktree prune" % (fw, rp))
     sh("git -C /repo worktree add -f --detach %s HEAD" % rp)
-    sh("mkdir -p %s && rsync -a --exclude build --exclude '*.vo' --exclude '*.glob' --exclude '*.aux' --exclude '.git' --exclude replay --exclude evidence --exclude seeded --exclude seeded-harmless %s/ %s/" % (fw, ROOT, fw))
+    sh("mkdir -p %s && rsync -a --exclude build --exclude 'coq/gen' --exclude '.git' --exclude replay --exclude evidence --exclude seeded --exclude seeded-harmless %s/ %s/" % (fw, ROOT, fw))
     sh("rm -f coq/Makefile coq/Makefile.conf coq/.Makefile.d", cwd=fw)
     while True:
         try:
